@@ -151,7 +151,11 @@ func C18(r *simkit.Run) {
 			tb.Cols = append(tb.Cols, lCol{Name: fmt.Sprintf("c%d", next()), Type: []string{"text", "integer"}[t.Draw("col-type", 2)]})
 		}
 		if t.Chance("virtual-col", 1, 3) {
-			tb.Cols = append(tb.Cols, lCol{Name: fmt.Sprintf("g%d", next()), Type: "integer", Virtual: true})
+			// Anywhere after id: a virtual column declared before a regular one is visited first
+			// when both are dropped in one step.
+			g := lCol{Name: fmt.Sprintf("g%d", next()), Type: "integer", Virtual: true}
+			k := 1 + t.Draw("virtual-col-position", len(tb.Cols))
+			tb.Cols = append(tb.Cols[:k:k], append([]lCol{g}, tb.Cols[k:]...)...)
 		}
 		return tb
 	}
@@ -219,15 +223,33 @@ func C18(r *simkit.Run) {
 				if len(tb.Cols) < 2 {
 					continue
 				}
-				k := 1 + t.Draw("drop-col", len(tb.Cols)-1)
-				c := tb.Cols[k]
-				tb.Cols = append(append([]lCol(nil), tb.Cols[:k]...), tb.Cols[k+1:]...)
-				if !c.Virtual {
-					exp = append(exp, lintExpect{code: "DS103", what: "column " + tb.Name + "." + c.Name, anywhere: true})
-				} else {
-					r.Probe("virtual-column-dropped")
+				// One or two columns in the same step; the rebuild is one statement group, reported once.
+				ndrop := 1
+				if len(tb.Cols) >= 3 && t.Chance("diff-drops-two-columns", 1, 2) {
+					ndrop = 2
 				}
-				lf.desc = append(lf.desc, fmt.Sprintf("diff:drop-column %s.%s virtual=%v (SQLite rebuild)", tb.Name, c.Name, c.Virtual))
+				var dropped []lCol
+				for j := 0; j < ndrop; j++ {
+					k := 1 + t.Draw("drop-col", len(tb.Cols)-1)
+					dropped = append(dropped, tb.Cols[k])
+					tb.Cols = append(append([]lCol(nil), tb.Cols[:k]...), tb.Cols[k+1:]...)
+				}
+				var regular, virtual []string
+				for _, c := range dropped {
+					if c.Virtual {
+						virtual = append(virtual, c.Name)
+						r.Probe("virtual-column-dropped")
+					} else {
+						regular = append(regular, c.Name)
+					}
+				}
+				if len(regular) > 0 {
+					exp = append(exp, lintExpect{code: "DS103", what: "column(s) " + tb.Name + "." + strings.Join(regular, ","), anywhere: true})
+				}
+				if len(regular) > 0 && len(virtual) > 0 {
+					r.Probe("virtual-and-regular-column-dropped-together")
+				}
+				lf.desc = append(lf.desc, fmt.Sprintf("diff:drop-columns %s regular=%v virtual=%v (SQLite rebuild)", tb.Name, regular, virtual))
 			}
 			// Sometimes the same diff also drops another table: the plan then rebuilds one table and
 			// drops the next one right after the rebuild's RENAME.
@@ -383,8 +405,27 @@ func C18(r *simkit.Run) {
 					}
 					k := cs[t.Draw("omit-col", len(cs))]
 					c := tb.Cols[k]
-					ev(tb.Name+"."+c.Name, "drop")
-					nt := &lTable{Name: tb.Name, Cols: append(append([]lCol(nil), tb.Cols[:k]...), tb.Cols[k+1:]...)}
+					omit := map[int]bool{k: true}
+					// Sometimes a second column (virtual or not) is omitted by the same rebuild.
+					if len(tb.Cols) >= 3 && t.Chance("omit-second-col", 1, 2) {
+						k2 := 1 + t.Draw("omit-col-2", len(tb.Cols)-1)
+						if k2 != k {
+							omit[k2] = true
+							if tb.Cols[k2].Virtual {
+								r.Probe("virtual-and-regular-column-dropped-together")
+							}
+						}
+					}
+					nt := &lTable{Name: tb.Name}
+					var omitted []string
+					for i, x := range tb.Cols {
+						if omit[i] {
+							ev(tb.Name+"."+x.Name, "drop")
+							omitted = append(omitted, x.Name)
+							continue
+						}
+						nt.Cols = append(nt.Cols, x)
+					}
 					var keep []string
 					for _, x := range nt.Cols {
 						if !x.Virtual {
@@ -406,12 +447,15 @@ func C18(r *simkit.Run) {
 					}
 					s, e := emit(group...)
 					bt, existed := before[tb.Name]
-					dropAt(s, e, tb.Name+"."+c.Name)
+					for _, n := range omitted {
+						dropAt(s, e, tb.Name+"."+n)
+					}
+					// One diagnostic per rebuild, whatever the number of non-virtual columns it omits.
 					if existed && bt.has(c.Name) {
 						lf.expect = append(lf.expect, lintExpect{code: "DS103", key: tb.Name + "." + c.Name, what: "column " + tb.Name + "." + c.Name, start: s, end: e})
 					}
 					tables[tb.Name] = nt
-					lf.desc = append(lf.desc, fmt.Sprintf("rebuild of %s omitting %s", tb.Name, c.Name))
+					lf.desc = append(lf.desc, fmt.Sprintf("rebuild of %s omitting %v", tb.Name, omitted))
 					r.Probe("hand-written-rebuild-omitting-column")
 				case 6: // additive rebuild (adds a column)
 					if busy(tableKeys(tb)...) {
